@@ -618,7 +618,8 @@ def main(argv):
     a = ap.parse_args(argv)
     tier = a.tier if a.tier in ("quick", "thorough") else "quick"
     try:
-        return check(a.pid, tier, a.replay)
+        with Lock("prop:" + a.pid):   # runs of one property share .build/<id>: serialise them
+            return check(a.pid, tier, a.replay)
     except Exception as e:  # never die silently: a crashed check is a broken check
         import traceback
         traceback.print_exc()
